@@ -25,12 +25,25 @@ func gcLayout(m *Machine, rec *Recorder) {
 	Tick()
 }
 
+// killAfter: the process is killed (after the data was flushed) instead of being shut down cleanly
+var c05KillAfter = map[string]bool{}
+
 func c05Run(writer func(rec *Recorder), reader func(rec *Recorder), viaHStore bool, cancel bool, dropHash bool) func(sc *Scenario, s *vsched.Sched) (*Mismatch, string) {
 	return func(sc *Scenario, s *vsched.Sched) (*Mismatch, string) {
 		m := NewMachine(s, sc.Cfg, nil)
 		defer m.Exit()
 		rec := &Recorder{st: m.St}
 		gcLayout(m, rec)
+		if c05KillAfter[sc.Name] {
+			// an earlier clean restart left a tree dump on disk
+			if err := m.CleanRestart(nil); err != nil {
+				return &Mismatch{Op: "setup", Where: "restart", Want: "opens", Got: err.Error(), Class: "open-error"}, ""
+			}
+			s.Drain()
+			rec.st = m.St
+			Tick()
+			Tick()
+		}
 		nSetup := len(rec.Ops)
 		var gcErr error
 		threads := []func(){
@@ -61,7 +74,11 @@ func c05Run(writer func(rec *Recorder), reader func(rec *Recorder), viaHStore bo
 		if mm := CheckFinal(m.St, rec.Ops, "final"); mm != nil {
 			return mm, obs
 		}
-		m.St.Close()
+		if c05KillAfter[sc.Name] {
+			m.St.VerifFlush(true) // every acknowledged write is on disk; then the process dies without Close
+		} else {
+			m.St.Close()
+		}
 		m.Exit()
 		if dropHash {
 			for _, p := range m.IndexFiles() {
@@ -96,6 +113,10 @@ func c05Scenarios(tier string) []*Scenario {
 	add("G2-gc-vs-del-a", c05Run(wDelA, rA, false, false, true))
 	add("G3-gc-vs-set-b-moved", c05Run(wSetB, rAB, false, false, true))
 	add("G4-hstore-gc-vs-set-a", c05Run(wSetA, rA, true, false, false))
+	// G7: as G1, but after the pass the process is killed (data flushed) instead of closed: the restart must not trust
+	// index files written before the pass
+	c05KillAfter["G7-gc-vs-set-a-then-kill"] = true
+	add("G7-gc-vs-set-a-then-kill", c05Run(wSetA, rA, false, false, false))
 	{
 		add("G5-gc-cancel-vs-set-a", c05Run(wSetA, rA, true, true, true))
 		add("G6-gc-vs-2sets", c05Run(func(rec *Recorder) { rec.Set(1, "a", val(1, 0, "a", 0)); rec.Set(1, "b", val(1, 1, "b", 0)) }, rAB, false, false, false))
@@ -107,7 +128,7 @@ func c05Scenarios(tier string) []*Scenario {
 
 func C05(job *Job, r *Report) {
 	r.Level = "model_checking"
-	r.Rule = "stateless model checking under the controlled scheduler: a store prepared with file0=[a1][a2], file1=[b1][c1], head=[c2] (so a pass over [0,1] relocates a's and b's current records and drops two superseded ones); threads: one GC pass (gcMgr.gc directly or through HStore.GC, optionally a canceller), one writer (set a / delete a / set b), one reader (get a, get b); EVERY interleaving at lock acquisitions, file-system calls, spawns (these bracket GC's newest-check, copy, tree repoint, hint write, source clear) with at most N preemptions (quick 2, thorough 3; the two heavier scenarios - with a canceller thread, with two client writes - one less); oracle: C04's conditions with the documented relaxation (a read overlapping the pass may return an error or a miss, never a wrong or stale value), after the pass every key reads its last acknowledged write, again after Close + exit + reopen with and without the tree dump"
+	r.Rule = "stateless model checking under the controlled scheduler: a store prepared with file0=[a1][a2], file1=[b1][c1], head=[c2] (so a pass over [0,1] relocates a's and b's current records and drops two superseded ones); threads: one GC pass (gcMgr.gc directly or through HStore.GC, optionally a canceller), one writer (set a / delete a / set b), one reader (get a, get b); EVERY interleaving at lock acquisitions, file-system calls, spawns (these bracket GC's newest-check, copy, tree repoint, hint write, source clear) with at most N preemptions (quick 2, thorough 3; the two heavier scenarios - with a canceller thread, with two client writes - one less); oracle: C04's conditions with the documented relaxation (a read overlapping the pass may return an error or a miss, never a wrong or stale value), after the pass every key reads its last acknowledged write, again after Close + exit + reopen with and without the tree dump, and (G7) after a kill that follows the pass"
 	r.Assumptions = []string{"sequentially consistent interleavings at synchronisation/file-system granularity", "cgo calls atomic"}
 	bound := 2
 	if job.Tier != "quick" {
